@@ -2149,6 +2149,10 @@ std::string Generator::implementationCode() const
 std::string Generator::equationCode(const AnalyserEquationAstPtr &ast,
                                     const GeneratorProfilePtr &generatorProfile)
 {
+    if (ast == nullptr) {
+        return {};
+    }
+
     GeneratorPtr generator = libcellml::Generator::create();
 
     if (generatorProfile != nullptr) {
